@@ -407,7 +407,10 @@ def monC13 (h : Hist) : Option String :=
     let s := storedOf e
     let now := c.t1
     let servedStored := x.fromStore && x.token == tokenOf e.resp.body
-    let strict := Spec.strictValidate Spec.rfc parse ri.req.header s x.res.t0
+    -- validation is mandatory when it is at the start of the exchange OR at the instant of the failure: a
+    -- must-revalidate response that was fresh when the origin was asked and is stale when the answer fails
+    -- (a slow origin) may not be served either
+    let strict := Spec.strictValidate Spec.rfc parse ri.req.header s x.res.t0 || Spec.strictValidate Spec.rfc parse ri.req.header s now
     let ns := [Spec.directiveSeconds Spec.rfc s.header (str% "stale-if-error"), Spec.directiveSeconds Spec.rfc ri.req.header (str% "stale-if-error")].filterMap id
     let st := Spec.staleness Spec.rfc parse s now
     -- the window is measured from the response's own lifetime whatever max-age the request carries (a
